@@ -28,6 +28,7 @@ func (p *BufferPool) Get() *bytes.Buffer {
 
 // Put returns buffer to pool.
 func (p *BufferPool) Put(b *bytes.Buffer) {
+	verifOnPut(b)
 	b.Reset()
 	p.pool.Put(b)
 }
